@@ -31,6 +31,8 @@ func runC05(c *Ctx) {
 	}
 	r := c.R
 	const pkg = "kvstore/mapdb"
+	// 0. keys are never built in the realm's own backing array (readers hold only the read lock)
+	checkNoAppendToSharedField(r, p, pkg)
 	// 1. guarded-by
 	checkGuards(r, p, "lock/guarded-by", mapdbGuardRows)
 	// 2. balance + order
